@@ -825,11 +825,11 @@ TOPLEVEL = re.compile(r"^(?:func|var|type|const)\s+(\w+)", re.M)
 
 class Copies:
     """Several placements share one package: copy k of the fixed package is the pair of files
-    a_k.go / b_k.go in which every package-level name N is renamed to N<K><k>; the copies
+    a_n<k>.go / b_n<k>.go (not a_<k>.go: `_386.go` is a GOARCH file suffix) in which every package-level name N is renamed to N<K><k>; the copies
     do not refer to each other.  A package made of such copies is one more package of the
     property's quantifier, with one directive in each pair of files — and it costs the
     analyzers' fixed per-package work once instead of COPIES times.  Reports are mapped
-    back (file a_k.go -> a.go of case k, names unsuffixed) and a directive-free control
+    back (file a_n<k>.go -> a.go of case k, names unsuffixed) and a directive-free control
     copy in every package must reproduce the base report exactly (else HarnessError: the
     copies are not independent and the batching is invalid)."""
     def __init__(self, sources):
@@ -935,7 +935,7 @@ def end_to_end(ctx, sc, rng, n_cases, all_checks, non_default, fails, mism, hist
                     for i in group + [None]:          # None: the directive-free control copy
                         k = i if i is not None else 10 ** 6 + g
                         files = sources if i is None else insert_line(sources, cases[i]["file"], cases[i]["line"], cases[i]["text"])
-                        materialise(mod, name, {"%s_%d.go" % (fn[0], k): copies.rename(src, k) for fn, src in files.items()})
+                        materialise(mod, name, {"%s_n%d.go" % (fn[0], k): copies.rename(src, k) for fn, src in files.items()})
                         where[i if i is not None else ("control", name)] = (name, k)
                         texts[(name, k)] = files
                         if i is not None:
@@ -961,7 +961,7 @@ def end_to_end(ctx, sc, rng, n_cases, all_checks, non_default, fails, mism, hist
                     split = {}
                     for name in pkgs:
                         for p in out[name]:
-                            m = re.match(r"([ab])_(\d+)\.go$", p[0])
+                            m = re.match(r"([ab])_n(\d+)\.go$", p[0])
                             if ncopies == 1:
                                 split.setdefault((name, None), []).append(p)
                             elif m:
@@ -995,12 +995,12 @@ def end_to_end(ctx, sc, rng, n_cases, all_checks, non_default, fails, mism, hist
         for i in group + [None]:
             k = i if i is not None else k0
             files = sources if i is None else insert_line(sources, cases[i]["file"], cases[i]["line"], "// c10 neutral comment")
-            materialise(mod, "n", {"%s_%d.go" % (fn[0], k): copies.rename(src, k) for fn, src in files.items()})
+            materialise(mod, "n", {"%s_n%d.go" % (fn[0], k): copies.rename(src, k) for fn, src in files.items()})
         out = run_staticcheck_batch(ctx, sc, mod, ["n"], CONFIGS[cfgname], show, cache)["n"]
         nruns[0] += 1
         ctl = []
         for p in out:
-            m = re.match(r"([ab])_(\d+)\.go$", p[0])
+            m = re.match(r"([ab])_n(\d+)\.go$", p[0])
             if m and int(m.group(2)) == k0:
                 fn = m.group(1) + ".go"
                 ctl.append((fn, p[1], copies.uncol(sources[fn][p[1] - 1], k0, p[2]), p[3], Copies.unname(p[4], k0), p[5]))
